@@ -125,10 +125,11 @@ def parse_script(script_text, start_line_number=1):
         match_if_begin = _R_SCRIPT_IF_BEGIN.match(line)
         if match_if_begin:
             # Add the if-then label definition
+            if_expr = _parse_statement_expression(match_if_begin, 'expr', line, start_line_number + ix_line)
             ifthen = {
                 'jump': {
                     'label': f"__bareScriptIf{label_index}",
-                    'expr': {'unary': {'op': '!', 'expr': parse_expression(match_if_begin.group('expr'))}}
+                    'expr': {'unary': {'op': '!', 'expr': if_expr}}
                 },
                 'done': f"__bareScriptDone{label_index}",
                 'hasElse': False,
@@ -157,9 +158,10 @@ def parse_script(script_text, start_line_number=1):
 
             # Generate the next if-then jump statement
             prev_label = ifthen['jump']['label']
+            elif_expr = _parse_statement_expression(match_if_else_if, 'expr', line, start_line_number + ix_line)
             ifthen['jump'] = {
                 'label': f"__bareScriptIf{label_index}",
-                'expr': {'unary': {'op': '!', 'expr': parse_expression(match_if_else_if.group('expr'))}}
+                'expr': {'unary': {'op': '!', 'expr': elif_expr}}
             }
             label_index += 1
 
@@ -217,7 +219,7 @@ def parse_script(script_text, start_line_number=1):
                 'loop': f'__bareScriptLoop{label_index}',
                 'continue': f'__bareScriptLoop{label_index}',
                 'done': f'__bareScriptDone{label_index}',
-                'expr': parse_expression(match_while_begin.group('expr')),
+                'expr': _parse_statement_expression(match_while_begin, 'expr', line, start_line_number + ix_line),
                 'line': line,
                 'lineNumber': start_line_number + ix_line
             }
@@ -265,8 +267,9 @@ def parse_script(script_text, start_line_number=1):
             label_index += 1
 
             # Add the for-each header statements
+            values_expr = _parse_statement_expression(match_for_begin, 'values', line, start_line_number + ix_line)
             statements.extend([
-                {'expr': {'name': foreach['values'], 'expr': parse_expression(match_for_begin.group('values'))}},
+                {'expr': {'name': foreach['values'], 'expr': values_expr}},
                 {'expr': {
                     'name': foreach['length'],
                     'expr': {'function': {'name': 'arrayLength', 'args': [{'variable': foreach['values']}]}}
@@ -401,6 +404,15 @@ def parse_script(script_text, start_line_number=1):
         raise BareScriptParserError(f"Missing end{def_key} statement", def_['line'], 1, def_['lineNumber'])
 
     return script
+
+
+# Helper to parse a statement's expression - expression errors are re-raised with the statement's line and line number
+def _parse_statement_expression(match, group, line, line_number):
+    try:
+        return parse_expression(match.group(group))
+    except BareScriptParserError as error:
+        column_number = match.start(group) + error.column_number
+        raise BareScriptParserError(error.error, line, column_number, line_number)
 
 
 # BareScript regex
